@@ -303,7 +303,7 @@ class TcpConn:
         _, _, d, seq, _ = self.pkts[k]
         return (seq - self.isn[d]) % 2 ** 32
 
-    def reschedule(self, rng, dup=0.15, disp=0.25, maxdist=3):
+    def reschedule(self, rng, dup=0.15, disp=0.25, maxdist=3, repack=0.12):
         """TCP delivery effects inside a flight (a maximal run of consecutive same-direction segments): exact duplicate
         segments (retransmissions captured twice) and segments displaced by a bounded distance. The first data
         segment of each direction stays the first of its direction (a capture that starts mid-flight is C03's
@@ -345,6 +345,26 @@ class TcpConn:
             t += rng.randrange(1, 5000)
             times.append(t)
         self.pkts = [(times[i],) + tuple(self.pkts[k][1:]) for i, k in enumerate(order)]
+        # repacketised retransmissions (RFC 9293 3.8.1 allows a retransmission to cover more than the original segment):
+        # a segment that starts at the sequence number of an earlier segment A and carries A's bytes followed by the bytes
+        # of the segment after it, captured later in the same flight. It brings nothing new.
+        k = 0
+        while k < len(self.pkts) - 2:
+            t0, _, d, seq, pl = self.pkts[k]
+            nxt = next((q for q in self.pkts[k + 1:] if q[2] == d and q[3] == (seq + len(pl)) % 2 ** 32 and q[4]), None)
+            if pl and nxt and rng.random() < repack:
+                end = k + 1
+                while end < len(self.pkts) and self.pkts[end][2] == d:
+                    end += 1
+                if self.pkts.index(nxt) < end:                       # both originals are in this flight
+                    pos = rng.randrange(self.pkts.index(nxt) + 1, end + 1)
+                    tt = self.pkts[pos - 1][0] + 1
+                    self.pkts.insert(pos, (tt, self.frame(d, seq, pl + nxt[4]), d, seq, pl + nxt[4]))
+                    for j in range(pos + 1, len(self.pkts)):        # keep the clock increasing
+                        if self.pkts[j][0] <= self.pkts[j - 1][0]:
+                            self.pkts[j] = (self.pkts[j - 1][0] + 1,) + tuple(self.pkts[j][1:])
+                    k = pos
+            k += 1
 
     def handshake_frames(self):
         """optional real TCP handshake (no payload; TLExport skips empty segments)"""
